@@ -1,5 +1,5 @@
 #!/bin/bash
-# wave 5: confirm + first-run detection (checks frozen at the commit the wave was launched from: worktree /tmp/verif_w5)
+# wave 5: confirm + first-run detection (checks frozen at the commit the wave was launched from: worktree ${HGV_FROZEN:-/tmp/verif_w5})
 S="$1"; P=${S%-*}; D=/tmp/seed/$P/out/$S
 [ -f "$D/patch.diff" ] || { echo "$S: no patch.diff"; exit 1; }
 bash /verif/tools/confirm_seed.sh "$D" /tmp/seed/$P/wt > /dev/null 2>&1
